@@ -1,8 +1,11 @@
 (** Extraction of the group "select" (C13, C15) to OCaml. *)
 From Coq Require Extraction ExtrOcamlBasic.
-From DivanV Require Import Base.Res Base.ExtractPrelude Model.SplitVec Model.Filter Model.Retain.
+From DivanV Require Import Base.Res Base.ExtractPrelude Model.SplitVec Model.Filter Model.Retain Model.Options.
 Extraction Language OCaml.
 Set Extraction KeepSingleton.
 Extraction "model.ml" extraction_prelude
   fs_query is_match_spec is_match_sb cli_ops
-  select retain retain_sb cases parents leaf_cases.
+  select retain retain_sb cases parents leaf_cases
+  resolve resolve_sb overwrite o_default set_field get to_collection set_counter thread_counts thread_counts_sb
+  set_threads strictly_increasing mem_N into_threads_usize into_threads_bool runner_level spec_runner spec_effective
+  observe should_ignore effective_ignore first_some precedence norm_threads.
